@@ -35,6 +35,13 @@ func NewWithKeys(suffix string, rootKey, intKey crypto.Signer) *World {
 	return &World{Root: root, Int: in, CRL: origin.New(), OCSP: origin.New()}
 }
 
+// NewNamed is NewWithKeys with a caller-chosen raw subject name for the intermediate (nil = default).
+func NewNamed(suffix string, rootKey, intKey crypto.Signer, intRawSubject []byte) *World {
+	root := pki.NewRoot(pki.CertOpts{CN: "Verif Root " + suffix, Key: rootKey})
+	in := root.Issue(pki.CertOpts{CN: "Verif Issuing CA " + suffix, RawSubject: intRawSubject, IsCA: true, Key: intKey})
+	return &World{Root: root, Int: in, CRL: origin.New(), OCSP: origin.New()}
+}
+
 func (w *World) Close() {
 	w.CRL.Close()
 	w.OCSP.Close()
